@@ -5,7 +5,9 @@ CFG = {
     "exe": "geomv_c03",
     "go_cmd": "c03",
     "stages": ["go:gen", "go:impl", "lean:judge"],
-    "theorems": [T + n for n in []],
+    "theorems": [T + n for n in ["shoelace_eq_textbook", "shoelace_reverse", "shoelace_rotate", "shoelace_close",
+                                 "centroidNum_reverse", "centroidNum_rotate", "centroidNum_close", "measure_spelling",
+                                 "C03_area", "C03_marea"]],
     "trusted_base": [
         "Lean 4.33.0 kernel; axioms of every theorem printed by #print axioms must be within {propext, Classical.choice, Quot.sound}",
         "Mathlib v4.33 modules imported by GeomV/C03/Lemmas*.lean and Proofs.lean (checked by the same kernel)",
